@@ -1126,6 +1126,7 @@ def world_session(job):
         files.append({"fields": [{"name": x["name"], "k": x["k"], "w": x["w"], "sh": x["sh"]} for x in ct["fields"]],
                       "chunks": [written[a:b] for a, b in tabs[f - 1]["cuts"]]})
     _tmpdir()
+    from esutil import sfile, recfile  # noqa: F401  (imported before the fork: the child only has to run the calls)
     rfd, wfd = os.pipe()
     pid = os.fork()
     if pid == 0:
@@ -1212,7 +1213,7 @@ def _overlaps(steps):
 
 def run_world(ctx, sessions, tally, first_id):
     tier = ctx.tier
-    if len(sessions) < (3000 if tier == "quick" else 19000):
+    if len(sessions) < (1600 if tier == "quick" else 19000):
         raise MachineryError("world: only %d sessions exported" % len(sessions))
     sessions = sorted(sessions, key=lambda s: (s["kinds"], s["ent"], s["twin"], [(x["f"], x["op"]) for x in s["steps"]]))
     rng = random.Random(ctx.seed * 32452843 + 3)
@@ -1234,7 +1235,7 @@ def run_world(ctx, sessions, tally, first_id):
         for key, val in (("by_scripts", "+".join(s["kinds"])), ("by_entries", "+".join(s["ent"])), ("by_twin", s["twin"])):
             note[key][val] = note[key].get(val, 0) + 1
     if (len(note["by_scripts"]) < 3 or len(note["by_entries"]) < 4 or len(note["by_twin"]) < 3 or
-            min(min(note[k].values()) for k in ("by_scripts", "by_entries", "by_twin")) < 100 or
+            min(min(note[k].values()) for k in ("by_scripts", "by_entries", "by_twin")) < 200 or
             note["steps_with_other_file_open"] < 3 * len(sessions)):
         raise MachineryError("world sessions thinly spread: %s" % note)
     probe = next((r for r in recs if all(o["err"] == "none" for o in r["obs"]) and meta[r["id"]]["sess"]["twin"] != "types" and
